@@ -525,10 +525,27 @@ pub enum ByteValue<'a> {
   B64(Cow<'a, [u8]>),
 }
 
+/// Write the text of a UTF-8 byte string literal in a spelling that parses back
+/// to the same bytes. The grammar has no escape for `'` inside `'...'`, so a
+/// text that contains one is written in the `h"..."` form, and one that
+/// contains both kinds of quote as base16
+pub(crate) fn fmt_utf8_byte_string(f: &mut fmt::Formatter, bytes: &[u8]) -> fmt::Result {
+  let text = core::str::from_utf8(bytes).map_err(|_| fmt::Error)?;
+  if !text.contains('\'') {
+    write!(f, "'{}'", text)
+  } else if !text.contains('"') {
+    write!(f, "h\"{}\"", text)
+  } else {
+    f.write_str("h'")?;
+    data_encoding::HEXLOWER.encode_write(bytes, f)?;
+    f.write_str("'")
+  }
+}
+
 impl fmt::Display for ByteValue<'_> {
   fn fmt(&self, f: &mut fmt::Formatter) -> fmt::Result {
     match self {
-      ByteValue::UTF8(b) => write!(f, "'{}'", core::str::from_utf8(b).map_err(|_| fmt::Error)?),
+      ByteValue::UTF8(b) => fmt_utf8_byte_string(f, b),
       ByteValue::B16(b) => {
         f.write_str("h'")?;
         data_encoding::HEXLOWER.encode_write(b, f)?;
